@@ -3,6 +3,7 @@ package rfc
 import (
 	"encoding/json"
 	"fmt"
+	"os"
 	"math/rand/v2"
 	"net/http"
 	"strings"
@@ -62,8 +63,11 @@ func genCCResp(r *rand.Rand, bias string) []string {
 	if bias == "C02" || bias == "C18" {
 		pb = 0.3
 	}
-	add(pb, "no-cache")
-	add(pb/2, `no-cache="X-Extra"`)
+	if chance(r, pb) {
+		ds = append(ds, "no-cache")
+	} else if chance(r, pb/2) {
+		ds = append(ds, `no-cache="X-Extra"`)
+	}
 	add(pb, "must-revalidate")
 	add(0.06, "no-store")
 	add(0.1, "private")
@@ -308,6 +312,9 @@ func fuzzHandler(c *FuzzCase, counts []int) sim.Handler {
 
 func pick2[T any](k int, xs []T) T { return xs[k%len(xs)] }
 
+// Verbose makes workloads print every exchange (replay mode).
+var Verbose = os.Getenv("VERIF_VERBOSE") != ""
+
 // FuzzObs is what one history produced for the monitors.
 type FuzzObs struct {
 	W    *sim.World
@@ -331,6 +338,17 @@ func runFuzzCase(c *FuzzCase, opt sim.WorldOpt, visit func(w *sim.World, in *mon
 		spec := sim.ReqSpec{Method: st.Method, URL: fuzzSpellings[st.Spelling](c.Resources[st.Res].Path), Header: st.Header}
 		ex := w.Do(spec)
 		in := mon.Classify(w, ex)
+		if Verbose {
+			fmt.Printf("EXCHANGE %s\n   resp header: %v\n", ex.Summary(), ex.Header)
+			for _, c := range ex.Calls() {
+				if c.Reply != nil {
+					fmt.Printf("   upstream %s bg=%v enter=%s exit=%s req=%v reply=%d %v err=%v\n", c.Serial, c.Background, c.Enter.Format("15:04:05.000"), c.Exit.Format("15:04:05.000"), c.Header, c.Reply.Status, c.Reply.Header, c.Reply.Err)
+				}
+			}
+			for _, op := range ex.StoreOps {
+				fmt.Printf("   store %s %q err=%q fault=%q %d bytes\n", op.Op, op.Key, op.Err, op.Fault, len(op.Value))
+			}
+		}
 		visit(w, in, invs)
 		if inv := mon.IsInvalidation(ex); inv != nil {
 			invs = append(invs, inv)
